@@ -135,6 +135,18 @@ class Ext:
     def cx_cmp(self, it, op, other, reflected):
         return NotImplemented
 
+    def cx_setitem(self, it, key, value):
+        """`ext[key] = value`"""
+        return NotImplemented
+
+    def cx_inplace(self, it, op, other):
+        """`name op= other` on a name / attribute bound to this value (numpy: mutates the object); NotImplemented = rebinding semantics"""
+        return NotImplemented
+
+    def cx_iter(self, it):
+        """list of the items iteration yields"""
+        return NotImplemented
+
 
 class ExcVal:
     def __init__(self, typ, args=()):
@@ -1081,8 +1093,11 @@ class Interp:
             return list(v)
         if isinstance(v, Obj) and '__iter__' in v.fields:
             return list(v.fields['__iter__'])
-        if isinstance(v, Ext) and hasattr(v, 'cx_iter'):
-            return v.cx_iter(self)
+        if isinstance(v, Ext):
+            r = v.cx_iter(self)
+            if r is NotImplemented:
+                raise Unsupported(f'iteration over extension value (line {getattr(node, "lineno", "?")})')
+            return list(r)
         if isinstance(v, NDArr):
             # rows of an array of unknown length: one representative row (provenance / aliasing only)
             self.ctx.event('iterate-array', store=v.store)
@@ -1456,6 +1471,8 @@ class Interp:
         if isinstance(cur, list) and isinstance(s.op, ast.Add):
             cur.extend(self.iterate(rhs))
             return
+        if isinstance(cur, Ext) and isinstance(s.target, (ast.Name, ast.Attribute)) and cur.cx_inplace(self, s.op, rhs) is not NotImplemented:
+            return
         self.bind_target(s.target, self.binop(s.op, cur, rhs, s), env, s)
 
     def bind_target(self, t, v, env, node=None):
@@ -1498,9 +1515,9 @@ class Interp:
 
     def setitem(self, o, k, v, node=None):
         if isinstance(o, Ext):
-            r = o.cx_setitem(self, k, v) if hasattr(o, 'cx_setitem') else NotImplemented
-            if r is NotImplemented:
+            if o.cx_setitem(self, k, v) is NotImplemented:
                 raise Unsupported('subscript store on extension value')
+            self.ctx.event('ext-setitem', obj=o, key=k, value=v, line=getattr(node, 'lineno', 0))
             return
         if isinstance(o, dict):
             if is_sym(k) or isinstance(k, Opaque):
